@@ -68,6 +68,16 @@ struct CondNoArg : Tracked<seq::T_COND, false>
 	bool operator() () const { faultPoint(F_CALL); FaultOff off; this->alive("condition evaluated"); return g_sink->condition(this->id, false, 0, calls++); }
 };
 
+// callable both with the trigger's argument and with none: "evaluated ... with the trigger's arguments if it accepts them" - the
+// form with the argument is the one the library must use
+struct CondBoth : Tracked<seq::T_COND, false>
+{
+	mutable int calls;
+	explicit CondBoth(int id) : Tracked<seq::T_COND, false>(id), calls(0) {}
+	bool operator() (int arg) const { faultPoint(F_CALL); FaultOff off; this->alive("condition evaluated"); return g_sink->condition(this->id, true, arg, calls++); }
+	bool operator() () const { faultPoint(F_CALL); FaultOff off; this->alive("condition evaluated"); return g_sink->condition(this->id, false, 0, calls++); }
+};
+
 struct Counters
 {
 	uint64_t plans, ops, addsThroughRemover, removesThroughRemover, resets, retargets, moveAssignIntoNonEmpty, moveAssigns, moveConstructs, swaps, destroys, triggers, listenerCalls,
@@ -498,7 +508,8 @@ struct Interp : Sink
 			int before = (op.c >> 8) & 63;
 			if(before >= MAXSLOT) before = MAXSLOT - 1;
 			if(howc == 2 && slotUsed[before] && slotIn[before] && !(slotTarget[before] == t && slotKey[before] == k)) return;
-			const bool takesArg = (op.c & 4) != 0, retrig = (op.c & 8) != 0;
+			const bool both = op.k == O_X_ADD && (op.c & 16) != 0;
+			const bool takesArg = (op.c & 4) != 0 || both, retrig = (op.c & 8) != 0;
 			Fn f(cb);
 			Handle h;
 			MItem it; it.cb = cb; it.evals = 0; it.pattern = 0; it.remaining = 0; it.condTakesArg = takesArg; it.retrigger = retrig;
@@ -513,7 +524,8 @@ struct Interp : Sink
 			else if(op.k == O_X_ADD) {
 				it.kind = I_COND; it.pattern = op.b;
 				++counters.conditionalAdds;
-				if(takesArg) { CondArg c(cb); FaultArm arm; h = TG::xadd(*targets[t], k, howc, f, handles[before], c); }
+				if(both) { CondBoth c(cb); FaultArm arm; h = TG::xadd(*targets[t], k, howc, f, handles[before], c); }
+				else if(takesArg) { CondArg c(cb); FaultArm arm; h = TG::xadd(*targets[t], k, howc, f, handles[before], c); }
 				else { CondNoArg c(cb); FaultArm arm; h = TG::xadd(*targets[t], k, howc, f, handles[before], c); }
 			}
 			else {
@@ -742,7 +754,7 @@ static void genC16(sim::Rng & rng, sim::Plan & plan, int len)
 		const int how = (int)rng.below(3);
 		const int retrig = rng.chance(1, 4) ? 8 : 0;
 		if(q < 16 && nextCb < MAXSLOT - 4) { const uint32_t xr = rng.below(40); const int n = xr == 0 ? INT_MIN : xr == 1 ? INT_MIN + 1 : xr == 2 ? INT_MAX : (int)rng.below(9) - 3; ops.push_back(Op(O_C_ADD, nextCb, n, how | retrig | (slot << 8), d)); known.push_back(nextCb++); }
-		else if(q < 30 && nextCb < MAXSLOT - 4) { const int pattern = (int)rng.below(256); const int takesArg = rng.chance(1, 2) ? 4 : 0; ops.push_back(Op(O_X_ADD, nextCb, pattern, how | takesArg | retrig | (slot << 8), d)); known.push_back(nextCb++); }
+		else if(q < 30 && nextCb < MAXSLOT - 4) { const int pattern = (int)rng.below(256); const int takesArg = rng.chance(1, 2) ? 4 : (rng.chance(1, 3) ? 16 : 0); ops.push_back(Op(O_X_ADD, nextCb, pattern, how | takesArg | retrig | (slot << 8), d)); known.push_back(nextCb++); }
 		else if(q < 40 && nextCb < MAXSLOT - 4) { ops.push_back(Op(O_P_ADD, nextCb, 0, how | retrig | (slot << 8), d)); known.push_back(nextCb++); }
 		else if(q < 47) ops.push_back(Op(O_D_REMOVE, 0, slot, 0, d));
 		else if(q < 80) { const int v = (int)rng.below(400); ops.push_back(Op(O_TRIGGER, v, 0, 0, d)); }
@@ -796,7 +808,7 @@ std::string describe(const Plan & plan)
 		else if(op.k == sr::O_R_REMOVE || op.k == sr::O_D_REMOVE) o << "(h" << op.b << ")";
 		else if(op.k == sr::O_MOVE_CONSTRUCT || op.k == sr::O_MOVE_ASSIGN || op.k == sr::O_SWAP) o << "(r" << op.a % 3 << ")";
 		else if(op.k == sr::O_C_ADD) o << "(cb" << op.a << ",n=" << op.b << ((op.c & 8) ? ",retrigger" : "") << ")";
-		else if(op.k == sr::O_X_ADD) o << "(cb" << op.a << ",pattern" << op.b << ((op.c & 4) ? ",cond(arg)" : ",cond()") << ((op.c & 8) ? ",retrigger" : "") << ")";
+		else if(op.k == sr::O_X_ADD) o << "(cb" << op.a << ",pattern" << op.b << ((op.c & 4) ? ",cond(arg)" : (op.c & 16) ? ",cond(arg)|cond()" : ",cond()") << ((op.c & 8) ? ",retrigger" : "") << ")";
 		else if(op.k == sr::O_P_ADD) o << "(cb" << op.a << ")";
 		if(plan.cfg[CFG_VARIANT] & 1) o << "@t" << ((op.d >> 2) & 1) << "k" << (op.d & 3);
 		else o << "@r" << ((op.d >> 3) & 3) << "t" << ((op.d >> 2) & 1) << "k" << (op.d & 3);
